@@ -561,6 +561,7 @@ pub fn single_program(s: &Sample, annotate: bool) -> Program {
         annotate,
         features: vec![],
         label: s.label.clone(),
+        path_mode: String::new(),
     }
 }
 
@@ -598,7 +599,7 @@ pub fn compose(samples: &[Sample], picks: &[usize], multi_file: bool, annotate: 
         picks.iter().map(|&i| samples[i].label.clone()).collect::<Vec<_>>().join("+"),
         if multi_file { " multi-file" } else { " concatenated" }
     );
-    Program { files, annotate, features: vec![], label }
+    Program { files, annotate, features: vec![], label, path_mode: String::new() }
 }
 
 pub fn random_composition(samples: &[Sample], rng: &mut Rng, annotate: bool) -> Program {
@@ -680,5 +681,5 @@ pub fn mutate_sample(s: &Sample, rng: &mut Rng, annotate: bool) -> Program {
             }
         }
     }
-    Program { files: vec![SrcFile { path: "a.mamba".into(), text }], annotate, features: vec![], label: format!("mutant[{}] of {}", kind, s.label) }
+    Program { files: vec![SrcFile { path: "a.mamba".into(), text }], annotate, features: vec![], label: format!("mutant[{}] of {}", kind, s.label), path_mode: String::new() }
 }
